@@ -5,14 +5,20 @@ imports, user classes, object / model processors, plus randomly generated
 grammars; memoization on and off; all of them share textX's base-type rule
 objects), a set of model files, and several *histories*: sequences of loads from
 strings and files, valid and invalid, interleaved over the pool, optionally with
-further metamodels created in the middle of the history.
+further metamodels created in the middle of the history.  Round V: metamodels compiled from grammar *files*
+(several from the same paths, rewritten in between), model files in several directories found through the
+search path of the import provider (two providers may share the list object), options mixed within a pool and
+*probe* inputs on which the configurations of a pool disagree (letter case, white space, keyword spacing),
+every other history dwelling on one metamodel and its relatives.
 
 Implementation side (harness/c16_world.py, a server process per harness worker; a *fresh state* =
 textx and arpeggio removed from sys.modules and imported again, user classes / processors rebuilt):
   * every history runs on a fresh state in which the pool has been created;
   * reference r1: every distinct load alone on a fresh state "pool created" (DESIGN.md Reading);
   * reference r2: the load on a fresh state in which only its metamodel was created
-    (the statement, literally: "the same metamodel configuration on a fresh process state");
+    (the statement, literally: "the same metamodel configuration on a fresh process state"); for every distinct load;
+  * configuration fingerprint of every existing metamodel after every operation (parser options, compiled parser
+    model with the regular expressions of the shared base-type rules, class table) against its solo creation;
   * reference r3 (a sample): r2 once more in a really new interpreter.
 Direct oracle: each outcome inside a history (structural dump of the model incl.
 positions, imported models, user-class construction / processor call log; or the
@@ -773,6 +779,9 @@ class Prop(Check):
         "History.C16_same_as_fresh_walk",
         "History.C16_walk_sep_false",
         "History.C16_creation_frame",
+        "History.C16_imports_provider_unchanged",
+        "History.C16_imports_history",
+        "History.C16_imports_alias_false",
     ]
     DRIVER = "Drivers/History.lean"
     QUICK_CASES = 72          # x 5 histories = 360 histories, ~2600 operations
@@ -781,10 +790,15 @@ class Prop(Check):
     PROCS_THOROUGH = int(os.environ.get("C16_PROCS", "16"))
     CASE_TIMEOUT = 400
     MAX_INCONCLUSIVE = 0.1  # more than this fraction of unfinished cases: infrastructure trouble (exit 2)
-    RULE = ("pools of 2-4 metamodels (+0-2 created inside the history) x 5 histories of 3-12 loads (strings / files, valid / "
-            "syntax error / unknown reference / failing user __init__, object processor, model processor / missing import); "
-            "non-trivial = a history in which a successful load follows a failed load of the same metamodel or a load of "
-            "another metamodel, and every outcome was compared with both fresh-state references")
+    RULE = ("pools of 2-4 metamodels (+0-2 created inside the history; grammars from strings and from files — several metamodels "
+            "compiled from the same paths holding other versions; options memoization / ignore_case / skipws / ws / autokwd "
+            "mixed within a pool; import providers with a search path, two providers sharing one list object) x 5 histories of "
+            "3-12 loads, every other history dwelling on one metamodel and those related to it (strings / files in several "
+            "directories, valid / syntax error / unknown reference / failing user __init__, object processor, model processor / "
+            "missing import / probe = a valid input changed in letter case, white space or keyword spacing, i.e. where the "
+            "configurations living in the process disagree); non-trivial = a history in which a successful load follows a "
+            "failed load of the same metamodel or a load of another metamodel, and every outcome was compared with the "
+            "fresh-state references (solo reference for every distinct load)")
     MODELLED = ("hand-modelled (TextxVerif/Load/History.lean): the state that survives a load — Arpeggio memo caches on the "
                 "(partly shared) rule objects, parser blueprint / clone containers with copy.copy aliasing (model.py clone), "
                 "user-class instrumentation counters and collected attributes (model.py _replace/_restore_user_attr_methods, "
@@ -796,7 +810,13 @@ class Prop(Check):
                 "Tie X: every history replayed by the Lean machine on the dumped real parser models; compared: parse tree / "
                 "syntax-error position of every load, number of memo-cache stores, instrumentation counts seen by user "
                 "__init__, and after every operation cache sizes, blueprint containers, clone aliasing, instrumentation "
-                "leftovers, grammar-parser cache, base-rule owner. Not exhibited: CPython object identity / GC, scope "
+                "leftovers, grammar-parser cache, base-rule owner; files parsed by a model_from_file (TextxVerif/Load/SearchPath.lean: "
+                "mirror of ImportURI._load_referenced_models / load_model_using_search_path, computed by the driver from the "
+                "directory tree and the provider's search path) against the implementation's repository order; the parser's "
+                "memoization flag against the configured one. Implementation only (direct oracle): the configuration fingerprint "
+                "of every existing metamodel after every operation (parser options, compiled parser model incl. regular "
+                "expressions and flags of the shared base-type rules, class table) equals the one of the same configuration "
+                "created alone on a fresh state. Not exhibited: CPython object identity / GC, scope "
                 "providers with own state (GlobalRepo), metamodel-global model repository (shared by design, C17), "
                 "registered languages / `reference` statements, debug output")
     ASSUMPTIONS = [
@@ -805,8 +825,10 @@ class Prop(Check):
         "under this premise (`walkOK`, evaluated by the Lean driver on every dumped pool and reported as a disagreement when "
         "false) clearing the memo caches by walking the parser model — what Arpeggio does and what the driver's machine "
         "`realWalk` does — is proved equal to dropping every entry (C16_walk_run, C16_stores_reachable)",
-        "the compiled parser model of a grammar does not depend on the memoization flag of the cached grammar parser "
-        "(the grammar parser is created by the first metamodel of a debug class): checked on the implementation by the solo reference",
+        "the compiled parser model of a grammar does not depend on the process state at creation time (memoization flag of the "
+        "cached grammar parser, metamodels created before, earlier content of the grammar's files): the Lean world takes the "
+        "parser models as given; checked on the implementation by comparing the configuration fingerprint of every metamodel "
+        "after every operation with the one of its solo creation, and by the solo reference of every load",
     ]
 
     def gen(self, rng, n, tier):
@@ -1160,9 +1182,16 @@ class Prop(Check):
 
         ph, kinds = Counter(), Counter()
         hist = ops = compared_r1 = compared_r2 = lean_h = memo_loads = multi = after_fail = 0
+        sp_loads = sp_dirs2 = fp_cmp = mixed_ic = same_paths = shared_lists = 0
         for c, o, m in zip(cases, obs, outs):
-            for cfg in c["pool"] + c.get("extras", []):
+            allc = c["pool"] + c.get("extras", [])
+            for cfg in allc:
                 kinds[cfg.get("kind")] += 1
+            mixed_ic += len({bool(x["opts"].get("ignore_case")) for x in allc}) == 2
+            gm = [x["gmain"] for x in allc if x.get("gmain")]
+            same_paths += len(gm) != len(set(gm))
+            sh = [x["sp_share"] for x in allc if x.get("sp_share")]
+            shared_lists += len(sh) != len(set(sh))
             if "runs" not in o:
                 continue
             lean_h += len(m.get("runs", [])) if isinstance(m, dict) else 0
@@ -1170,8 +1199,15 @@ class Prop(Check):
             for hops, run in zip(c["histories"], o["runs"]):
                 hist += 1
                 failed = set()
+                dirs_seen = {}
                 for op, st in zip(hops, run.get("hist", [])):
                     ops += 1
+                    fp_cmp += sum(1 for x in (st["hid"].get("fp") or []) if x is not None)
+                    if op[0] == "file" and allc[op[1]].get("search_path") is not None:
+                        sp_loads += 1
+                        ds = dirs_seen.setdefault(allc[op[1]].get("sp_share") or op[1], set())
+                        sp_dirs2 += bool(ds - {os.path.dirname(op[2])})
+                        ds.add(os.path.dirname(op[2]))
                     if op[0] == "new":
                         ph["new"] += 1
                         continue
@@ -1190,7 +1226,13 @@ class Prop(Check):
         return {"inconclusive": getattr(self, "_inconclusive", 0), "histories": hist, "operations": ops, "outcome_phases": dict(ph), "metamodel_kinds": dict(kinds),
                 "compared_with_pool_state_reference": compared_r1, "compared_with_solo_reference": compared_r2,
                 "histories_replayed_by_lean": lean_h, "loads_with_memo_cache_stores": memo_loads,
-                "file_loads": multi, "successful_loads_after_a_failed_load_of_the_same_metamodel": after_fail}
+                "file_loads": multi, "successful_loads_after_a_failed_load_of_the_same_metamodel": after_fail,
+                "file_loads_through_a_search_path": sp_loads,
+                "of_these_after_a_load_from_another_directory_through_the_same_list": sp_dirs2,
+                "metamodel_fingerprints_compared_with_solo_creation": fp_cmp,
+                "cases_mixing_ignore_case_and_case_sensitive_metamodels": mixed_ic,
+                "cases_with_metamodels_compiled_from_the_same_grammar_paths": same_paths,
+                "cases_with_providers_sharing_a_search_path_list": shared_lists}
 
     def extra_search(self, rng, tier, broken):
         return [gen_case(rng.fork(i), tier) for i in range(40 if tier == "quick" else 200)]
